@@ -138,6 +138,11 @@ class Executor : public BasicExecutor {
 #if __cpp_concepts && __cpp_lib_coroutine
   template <typename T>
   inline int submit(CoroutineTask<T>&& task) noexcept;
+  // Same as submit, but for a task which owns the promise of future: when the
+  // submission is refused, future is reset to invalid before the task (and the
+  // unset promise inside) is destroyed
+  template <typename T, typename FT>
+  inline int submit_with_future(CoroutineTask<T>&& task, FT& future) noexcept;
 #endif // __cpp_concepts && __cpp_lib_coroutine
 
   template <typename P, typename C, typename... Args>
